@@ -1,8 +1,9 @@
 (** C30 — Tenant metadata stays unique and internally consistent.  Property theorems only.
 
     [run fx ops] is the state of the mirror model (Model/C30.v) after the history [ops]
-    from the empty store; [fx = false] is the code as it is, [fx = true] the code with
-    [Store.DeleteOrg] repaired.  All statements are for histories of ANY length over
+    from the empty store; [fx = true] is the code as it is (since /repo commit 80e129d9b5),
+    [fx = false] the code before that repair of [Store.DeleteOrg]; the theorems quantified
+    over [fx] hold for both.  All statements are for histories of ANY length over
     ANY names and ids (including operations on ids that do not exist yet, never existed
     or were deleted). *)
 From Verif Require Import Base.Prelude Model.C30 Proofs.C30_al Proofs.C30_inv Proofs.C30_step
@@ -28,7 +29,7 @@ Print Assumptions C30_bucket_names_unique_per_org.
 
 (** Every name lookup of the service API agrees with the records: FindOrganization(name),
     FindBucketByName(org, name), FindUser(name) return id iff the record id exists and
-    carries that name (this holds in full also for the code as it is). *)
+    carries that name. *)
 Theorem C30_name_lookup_agrees_with_record : forall fx ops,
   let st := run fx ops in
   (forall p id, find_org st p = Some id <-> exists n, getN id (s_orgs st) = Some n /\ trim n = trim p) /\
@@ -41,18 +42,14 @@ Proof.
 Qed.
 Print Assumptions C30_name_lookup_agrees_with_record.
 
-(** FULL STATEMENT (index_agrees_with_record, both directions, all four indexes):
-      every index entry points to a live record carrying that name, and every record has
-      its index entry.
-    It is REFUTED for the organization name index of the code as it is
-    ([C30_index_agrees_with_record_refuted]).  Proved: both directions for the bucket
-    index, the user index and the by-user mapping index; record -> entry for the
-    organization index; entry -> record for the organization index only in the weak form
-    "an entry never points to a live organization of another name", and in full
-    (a) for histories whose organization names have no surrounding blanks and
-    (b) for all histories of the repaired code. *)
-Theorem C30_index_agrees_with_record_partial : forall fx ops,
-  let st := run fx ops in
+(** Every index entry points to a live record carrying that name, and every record has its
+    index entry — all four indexes, both directions, all histories (code as of /repo commit
+    80e129d9b5, [fx = true]). *)
+Theorem C30_index_agrees_with_record : forall ops,
+  let st := run true ops in
+  (* organizations *)
+  (forall k id, getP k (s_oidx st) = Some id -> exists n, getN id (s_orgs st) = Some n /\ trim n = k) /\
+  (forall id n, getN id (s_orgs st) = Some n -> getP (trim n) (s_oidx st) = Some id) /\
   (* buckets *)
   (forall o n id, getP (o, n) (s_bidx st) = Some id ->
      exists b, getN id (s_bkts st) = Some b /\ b_org b = o /\ b_name b = n) /\
@@ -63,38 +60,27 @@ Theorem C30_index_agrees_with_record_partial : forall fx ops,
   (* mappings and their by-user index *)
   (forall u r pk, getP (u, r) (s_uix st) = Some pk ->
      pk = (r, u) /\ exists v, getP (r, u) (s_urms st) = Some v) /\
-  (forall r u v, getP (r, u) (s_urms st) = Some v -> getP (u, r) (s_uix st) = Some (r, u)) /\
-  (* organizations *)
-  (forall id n, getN id (s_orgs st) = Some n -> getP (trim n) (s_oidx st) = Some id) /\
-  (forall k id n, getP k (s_oidx st) = Some id -> getN id (s_orgs st) = Some n -> trim n = k) /\
-  (fx = true \/ Forall op_trimmed ops ->
-   forall k id, getP k (s_oidx st) = Some id -> exists n, getN id (s_orgs st) = Some n /\ trim n = k).
+  (forall r u v, getP (r, u) (s_urms st) = Some v -> getP (u, r) (s_uix st) = Some (r, u)).
 Proof.
-  intros fx ops st. repeat split.
+  intros ops st. repeat split.
+  - apply run_osound_fixed. - apply org_index_complete.
   - apply bucket_index_sound. - apply bucket_index_complete.
   - apply user_index_sound. - apply user_index_complete.
   - eapply urm_index_sound; eauto. - eapply urm_index_sound; eauto. - apply urm_index_complete.
-  - apply org_index_complete. - apply org_index_weakly_sound.
-  - intros [-> | Hf]; [apply run_osound_fixed | apply run_osound_trimmed; exact Hf].
 Qed.
-Print Assumptions C30_index_agrees_with_record_partial.
+Print Assumptions C30_index_agrees_with_record.
 
-(** The code as it is: create an organization named " x" (a blank before the name),
-    delete it.  The name index entry "x" survives and points to the dead id; no
-    organization is left, yet creating "x" is refused as a name conflict forever, while
-    FindOrganization("x") answers "not found".  Reproduced on the real tenant.Service
-    (findings.d/C30.json). *)
-Theorem C30_index_agrees_with_record_refuted :
-  exists ops, let st := run false ops in
-    (exists k id, getP k (s_oidx st) = Some id /\ getN id (s_orgs st) = None) /\
-    s_orgs st = [] /\
-    step_e false st (CreateOrg (1, 0)%N None) = (st, E_CONFLICT) /\
-    find_org st (1, 0)%N = None.
-Proof.
-  exists witness_ops. destruct osound_refuted as (H1 & H2 & H3 & H4).
-  split; [|auto]. exists (1, 0)%N, 1%N. split; [exact H1|]. cbv zeta. rewrite H2. reflexivity.
-Qed.
-Print Assumptions C30_index_agrees_with_record_refuted.
+(** The code BEFORE commit 80e129d9b5 ([fx = false]): create an organization named " x",
+    delete it.  The name index entry "x" survived and pointed to the dead id; no organization
+    was left, yet creating "x" was refused as a name conflict forever, while
+    FindOrganization("x") answered "not found" (findings.d/C30.json, fixed).  With the
+    repaired delete the same history leaves an empty index. *)
+Example C30_prefix_counterexample :
+  (let st := run false witness_ops in
+   getP (1, 0)%N (s_oidx st) = Some 1%N /\ s_orgs st = [] /\
+   step_e false st (CreateOrg (1, 0)%N None) = (st, E_CONFLICT) /\ find_org st (1, 0)%N = None) /\
+  s_oidx (run true witness_ops) = [].
+Proof. split; [exact osound_refuted | vm_compute; reflexivity]. Qed.
 
 (** No orphans: the organization of a bucket, the user of a mapping and the user of a
     password exist. *)
@@ -172,14 +158,14 @@ Example C30_nonvacuous :
   let ops := [CreateUser 1; SetPassword 1; CreateOrg (1, 0)%N (Some 1%N); CreateOrg (2, 0)%N None;
               CreateBucket 2 5 false; UpdateBucket 8 (Some 6%N); AddURM 8 1 (1, 1)%N;
               UpdateOrg 5 (Some (1, 0)%N); CreateBucket 5 6 false]%N in
-  let st := run false ops in
+  let st := run true ops in
   getN 2 (s_orgs st) = Some (1, 0)%N /\ getN 5 (s_orgs st) = Some (2, 0)%N /\
   getN 8 (s_bkts st) = Some {| b_org := 2; b_name := 6; b_sys := false |} /\
   getN 3 (s_bkts st) = Some {| b_org := 2; b_name := 0; b_sys := true |} /\
   find_bucket st 2 6 = Some 8%N /\ find_bucket st 5 6 = Some 9%N /\
   getP (8, 1)%N (s_urms st) = Some (1, 1)%N /\ hasN 1 (s_pwds st) = true /\
-  snd (step_e false st (UpdateOrg 5 (Some (1, 1)%N))) = E_CONFLICT /\
-  snd (step_e false st (DeleteOrg 2)) = E_OK /\
-  s_urms (fst (step_e false st (DeleteOrg 2))) = [] /\
-  snd (step_e false st (DeleteUser 1)) = E_OK.
+  snd (step_e true st (UpdateOrg 5 (Some (1, 1)%N))) = E_CONFLICT /\
+  snd (step_e true st (DeleteOrg 2)) = E_OK /\
+  s_urms (fst (step_e true st (DeleteOrg 2))) = [] /\
+  snd (step_e true st (DeleteUser 1)) = E_OK.
 Proof. vm_compute. repeat split; reflexivity. Qed.
